@@ -24,7 +24,6 @@ fn main() {
     let code = match cmd {
         "cycle-gen" => cycle::gen(rest),
         "cycle-run" => cycle::run(rest),
-        "cycle-probe" => cycle::probe(rest),
         "debug-run" => debug::run(rest),
         "det-child" => det::child(rest),
         "fb-gen" => fb::gen(rest),
